@@ -71,6 +71,15 @@ def gen(c):
             if tag == "modn":
                 put({"op": "modn_mul", "a": H(x), "b": H(y)}, {"op": "modn_mul", "_w": ("mul", x, y, None, n)})
             put({"op": tag + "_mont_mul", "a": H(x), "b": H(y)}, {"op": tag + "_mont_mul", "_w": ("mont_mul", x, y, None, mod)})
+        # Montgomery products whose true value is tiny although both operands are large: the value before the final correction is s + m,
+        # the slice in which a sloppy "is it >= m" test goes wrong
+        for s_small in (0, 1, 2, 3, (1 << 64) - 1, 1 << 64, (1 << 96) - (1 << 64), (1 << 96) - (1 << 64) + 1, 1 << 96, (1 << 128) - 1, 1 << 192):
+            for _ in range(1 if c.quick else 4):
+                xx = rng.randrange(2, mod)
+                a_m, b_m = xx * R % mod, pow(xx, -1, mod) * s_small % mod
+                put({"op": tag + "_mont_mul", "a": H(a_m), "b": H(b_m)}, {"op": tag + "_mont_mul", "_w": ("mont_mul", a_m, b_m, None, mod)})
+        put({"op": tag + "_mont_mul", "a": H((mod - 1) * R % mod), "b": H(mod - 1)}, {"op": tag + "_mont_mul", "_w": ("mont_mul", (mod - 1) * R % mod, mod - 1, None, mod)})
+        put({"op": tag + "_mont_sqr", "a": H(mod - 1)}, {"op": tag + "_mont_sqr", "_w": ("mont_mul", mod - 1, mod - 1, None, mod)})
         for x in vs:
             put({"op": tag + "_neg", "a": H(x)}, {"op": tag + "_neg"})
             put({"op": tag + "_to_mont", "a": H(x)}, {"op": tag + "_to_mont", "_w": ("to_mont", x, None, None, mod)})
